@@ -155,6 +155,14 @@ func forgetsOnly(w writeSite) bool {
 	return false
 }
 
+// shiftRules: R6.11 / R6.13 / R6.19 alone (imported by C08).
+func shiftRules(c *Ctx) {
+	dv := newDev(c, "R6.0")
+	if dv.ok && dv.need("R6.0", []string{"handleABSEvent"}, nil) {
+		ruleShiftOnlyUnsigned(c, dv, "R6.11")
+	}
+}
+
 // repetitionRules: R6.4 / R6.17 alone (imported by C08: the first report of a key-emulating axis must reach the thresholds).
 func repetitionRules(c *Ctx) {
 	dv := newDev(c, "R6.0")
@@ -215,6 +223,9 @@ func checkC06(c *Ctx) {
 	ruleFlipAfterDeadzone(c, dv, "R6.7")
 	ruleRescaleExact(c, dv, "R6.10")
 	ruleShiftOnlyUnsigned(c, dv, "R6.11")
+	if pf := newParserFacts(c); pf.err == nil {
+		ruleNoSilentSkip(c, pf, "R6.20") // every deadzone (and axis) entry of the file reaches the tables the handler looks up
+	}
 	ruleNoStaleRangeFlag(c, dv, "R6.18")
 	c.importRules(checkC07, []string{"R7.9"}, "R6.15") // the rest value is transmitted for a resting axis also after CC learning: a swallowed position is not remembered as sent
 	c.importRules(checkC07, []string{"R7.1"}, "R6.9")  // every position that passes the gates is transmitted: each controller path sends the active controller (no second, value-based suppression)
@@ -1380,6 +1391,22 @@ func ruleShiftOnlyUnsigned(c *Ctx, dv *dev, rule string) {
 	guarded := func(_ *FnView, b *ssa.BasicBlock) bool { return guardedAt(b, 0) }
 	pos := c.P.Pos(fn.Pos())
 	n, bad := 0, ""
+	nKeyShift, keyShiftBad := 0, ""
+	keyRegion := map[*ssa.BasicBlock]bool{}
+	for _, tn := range []string{"AnalogKeySim", "AnalogActionSim"} {
+		if tv, ok := c.P.constString(pkgConfig, tn); ok {
+			for b := range caseRegion(fn, dv, tv) {
+				keyRegion[b] = true
+			}
+		}
+	}
+	defer func() {
+		if nKeyShift > 0 {
+			c.Check(keyShiftBad == "", "R6.19", "device.handleABSEvent/emulation-shift-depends-on-the-range-only", pos, fmt.Sprintf("%d conversion(s) 2v-1 in the emulation cases, each conditioned on the range flag alone", nKeyShift), keyShiftBad)
+		} else {
+			c.Trivial("R6.19", "device.handleABSEvent/emulation-shift-depends-on-the-range-only", pos, "no conversion 2v-1 inside the emulation cases themselves (it happens before the switch or in a helper): judged by R6.11 and the region template R8.1")
+		}
+	}()
 	fnView := NewFnView(c.P, fn)
 	for _, host := range hosts {
 		vw := NewFnView(c.P, host)
@@ -1397,6 +1424,50 @@ func ruleShiftOnlyUnsigned(c *Ctx, dv *dev, rule string) {
 					continue
 				}
 				n++
+				// R6.19 inside the key-emulation (and action) case the conversion 2v-1 is what brings an unsigned position into the
+				// range the thresholds are written for: there it depends on the range alone, no further condition (a "triggers
+				// only have one key" exception leaves an unsigned stick at +0.5 at rest)
+				calledFromKeyRegion := false
+				if host != fn {
+					if sites, all := staticCallSites(c.P, host); all {
+						for _, cs := range sites {
+							if cs.Parent() == fn && keyRegion[cs.Block()] {
+								calledFromKeyRegion = true
+							}
+						}
+					}
+				}
+				if calledFromKeyRegion {
+					// the conversion lives in a helper the emulation case calls (`pos.bipolar()`): inside the helper it may depend
+					// on the range flag it was handed, and on nothing else
+					nKeyShift++
+					for _, a := range vw.GuardsAt(b) {
+						if a.Instr != nil && !implies(a.Instr.Cond, a.Taken, 0) && !loadsField(condOperandAny(a.Instr.Cond)) && keyShiftBad == "" {
+							keyShiftBad = fmt.Sprintf("the conversion 2v-1 at %s, used by the emulation case, is applied under a condition (%s) that is not the range being unsigned", c.P.Pos(sub.Pos()), truncate(a.Cond.String(), 80))
+						}
+					}
+				}
+				if host == fn && keyRegion[b] {
+					nKeyShift++
+					for _, a := range vw.GuardsAt(b) {
+						if a.Instr == nil || !keyRegion[a.Instr.Block()] || len(b.Succs) != 1 {
+							continue
+						}
+						// only conditions whose other branch goes on to the thresholds without the conversion count (not an early
+						// return in front of the whole case)
+						gb := a.Instr.Block()
+						other := gb.Succs[1]
+						if !a.Taken {
+							other = gb.Succs[0]
+						}
+						if other != b.Succs[0] && !reaches(other, b.Succs[0], b) {
+							continue
+						}
+						if !implies(a.Instr.Cond, a.Taken, 0) && keyShiftBad == "" {
+							keyShiftBad = fmt.Sprintf("the conversion 2v-1 at %s in the emulation case is applied under a further condition (%s) besides the range being unsigned: unsigned positions it skips meet thresholds written for -1..1", c.P.Pos(sub.Pos()), truncate(a.Cond.String(), 80))
+						}
+					}
+				}
 				ok = guarded(vw, b)
 				if !ok && host != fn {
 					// a helper: every call from the handler must be guarded
@@ -1556,6 +1627,17 @@ func ruleShiftOnlyUnsigned(c *Ctx, dv *dev, rule string) {
 	}
 	if len(flips) > 0 {
 		c.Check(flipBad == "", "R6.13", "device.handleABSEvent/unsigned-flip-only-on-an-unshifted-unsigned-position", pos, fmt.Sprintf("%d flip site(s) of the form 1 - v checked", len(flips)), flipBad)
+	}
+}
+
+// condOperandAny: the value a condition tests, through negations (the flag of `if !p.signed`).
+func condOperandAny(v ssa.Value) ssa.Value {
+	for {
+		u, ok := v.(*ssa.UnOp)
+		if !ok || u.Op != token.NOT {
+			return v
+		}
+		v = u.X
 	}
 }
 
